@@ -1,0 +1,41 @@
+//go:build verif
+
+// Contracts of the scalar multiplications of this curve (comment-only; installed by /verif/gcv gen-contracts).
+//
+// Layer "module T...": the values of the point types are elements of an abstract abelian group written additively.
+// The point operations (AddAssign, Double, Neg, Set, FromAffine, phi, ...) are interpreted as the group operations
+// their names state (their coordinate formulas are the subject of C02) and the package-level infinity is the
+// neutral element; math/big integers are mathematical integers. A postcondition "*p == k * old(*q)" says that the
+// result is the k-fold multiple of the operand: the tool proves it as an identity that is linear in the point
+// indeterminates, coefficient by coefficient, which is valid in every abelian group (no group order is used).
+// Where the code reduces a scalar modulo the group order r (Element.SetBigInt) the clause shows the reduced scalar
+// bigmod(|s|, r) explicitly: for operands of order dividing r this is the multiple by s.
+//
+// The loops over the 2-bit windows are cut after every window ("cut after def mask #k"): each step is proved from
+// the previous cut alone ("+ forget"), with the arithmetic fact x div a = 4 (x div 4a) + (x div a) mod 4 proved
+// separately ("lemma divsplit").
+
+package starkcurve
+
+// ---------------- G1 ----------------
+
+// 2-bit fixed windows over the big-endian bytes of |s|; the operand is negated first when s < 0.
+//@ func G1Jac.mulWindowed
+//@ layer module G1Jac bigint big.Int
+//@ smt (define-fun-rec big.frombytes ((a (Array Int Int)) (off Int) (n Int)) Int (ite (<= n 0) 0 (+ (* 256 (big.frombytes a off (- n 1))) (select a (+ off (- n 1))))))
+//@ ghost r0 = 0
+//@ loop 0
+//@ + invariant[prefix] 0 <= iter && iter <= len(b) && res == bepre(b, iter) * ops[0]
+//@ + ghost-post r0 = res
+//@ cut after def mask #2
+//@ + invariant[digit3] res == 4*r0 + (w/64)*ops[0]
+//@ cut after def mask #3
+//@ + invariant[digit2] res == 16*r0 + (w/16)*ops[0]
+//@ cut after def mask #4
+//@ + invariant[digit1] res == 64*r0 + (w/4)*ops[0]
+//@ cut after def mask #5
+//@ + invariant[digit0] res == 256*r0 + w*ops[0]
+//@ ensures[value] *p == *s * old(*a)
+//@ ensures[result] result == p
+//@ modifies p
+//@ end
